@@ -20,6 +20,52 @@ CHECKS = {
         design_ref="6/C19"),
 }
 
+CHECKS.update({
+    "C01": dict(
+        text="Lean theorems C01.and_exact / or_exact / invert_exact / reach_canon / main: over ANY linear preorder of "
+             "bounds (so any PEP 440 shape), the model of range.py/union.py/special.py (same branches, same operand "
+             "returned, CPython operator dispatch) computes exact intersection, union (never crashing on canonical "
+             "operands) and complement, and canonical shape is preserved, hence for everything reachable. The model is "
+             "compared structurally with the real classes on every ordered pair of canonical interval sets over 3 points "
+             "(order-type exhaustive, 16384 pairs x 2 operators + all inverts) with bounds drawn from 57 version shapes, "
+             "and on random expressions over parsed clause sets.",
+        technique="Lean 4 proof over a generic-order model + order-type-exhaustive structural correspondence",
+        design_ref="6/C01"),
+    "C05": dict(
+        text="Lean theorems C05.results_canonical (shape, any linear preorder), isEmpty_sound / isAny_sound, and "
+             "isEmpty_exact / isAny_exact for dense unbounded orders (the structural reading); the PEP 440 order is not "
+             "dense, the gap case is a recorded known finding. `==` exactness is checked differentially (result == canonical "
+             "object of the expected set, != a neighbour) on the order-type grid; the Lean-executable Canon predicate is "
+             "evaluated on every implementation result.",
+        technique="Lean 4 proof (shape + emptiness/universality) + exhaustive structural correspondence",
+        design_ref="6/C05"),
+    "C06": dict(
+        text="Token-level Lean model of rendering (_simplified_form/__str__ of range.py and union.py) and parsing "
+             "(_from_pkg_specifier, from_specifierset, parse_version_specifier). Proved: empty/any round trip, every range "
+             "rendered without the ~= heuristic re-parses to an equal range (range_roundtrip_plain_partial), and the "
+             "property as stated is FALSE of the code for [X.Y,(X+1).0.postN) (postrelease_counterexample, known finding D4a). "
+             "The ~=, !=V, !=X.* and || forms are decided by the differential stream: str() and re-parse of every reachable "
+             "object are compared with the model and checked with the real `==`.",
+        technique="Lean 4 partial proof + counterexample theorem + differential correspondence of str/parse",
+        design_ref="6/C06"),
+    "C04": dict(
+        text="Lean: leaf lemma for the ordered/equality operators (PEP 440 match = interval membership, any candidate), "
+             "tree_exact (any &,|,~ expression over canonical leaves never crashes and admits exactly the Boolean "
+             "combination of its leaves; from C01). Wildcard/~= leaves and the render-then-match step are covered by two "
+             "differential streams: the Lean reference matcher vs installed packaging on leaves x finals, and `v in result` "
+             "vs the Boolean combination of packaging's answers, both also compared with the model's containsFinal.",
+        technique="Lean 4 proof (algebra + plain leaves) + differential correspondence against packaging",
+        design_ref="6/C04"),
+    "C17": dict(
+        text="Lean: fromClause_total / fromSpecifierSet_total - on every clause packaging's grammar accepts, the translation "
+             "to ranges cannot fail (the repaired defect D5), so no exception other than InvalidSpecifier is reachable from "
+             "the model. Which strings packaging accepts is a parameter (trusted); the differential stream compares the "
+             "outcome class with SpecifierSet on grammar-generated valid sets and near-miss strings, plus a metamorphic "
+             "normalised-spelling check and structural comparison with the model.",
+        technique="Lean 4 totality proof + grammar-based differential testing of acceptance",
+        design_ref="6/C17"),
+})
+
 ALL = [f"C{n:02d}" for n in range(1, 20)]
 PENDING_REASON = "check under construction in this round; not claimed yet"
 
